@@ -1,9 +1,9 @@
 from check import Job
 import itertools
 EXPLANATION = 'histories of put / get / get_record / sweep_expired / snapshot on the real ChunkStore (real unordered_map) over two chunk ids with a symbolic steady clock; a deadline oracle decides every lookup, including lookups exactly at the deadline'
-ASSUMPTIONS = ['steady_clock::now is the harness clock: arbitrary start below 2^60 ns, arbitrary non-negative advance (<= 2^50 ns) before every step',
+ASSUMPTIONS = ['steady_clock::now is the harness clock: event times on a 1/8 s grid, advance 0..127 eighths (< 16 s) before every step; deadlines are event times plus whole seconds, so every real-valued schedule of <= 8 events is order-isomorphic to one on this grid (magnitudes bounded, orderings not)',
                'std::_Hash_bytes and the rehash policy are the harness models of harness/include/stdmodels.h; chunk_id_to_string is the lower-case hex model (compared with the real function on every native replay)',
-               'requested TTL within +-2^31 s, default TTL within [1, 86400] s (the range sanitize_config produces), payload 1 or 2 symbolic bytes, persistence off',
+               'requested TTL in [-8, 247] s, default TTL in [1, 256] s (TTL window arithmetic for the full 64-bit range is C02), payload 1 or 2 symbolic bytes, persistence off',
                'every operation sequence of length 3 (quick) / 4 (thorough) that starts with a store, one job per sequence; which of the two chunk ids each step addresses is symbolic',
                'Node-level listing (stored_chunks) and peer-request paths are checked in job node-listing on a partial Node (see harness/node_store.cpp)']
 OPS = 'PGRSL'   # put, get, get_record, sweep, list(snapshot)
